@@ -106,7 +106,10 @@ type elem struct {
 	badFrom bool
 	payload xml.Name
 	hasPay  bool
-	prog    prog
+	// character data (not white space) stands where the payload element should
+	// be: the first child of the IQ is text
+	textFirst bool
+	prog      prog
 	// the start element also carries type/id/from attributes in a foreign namespace
 	foreignAttrs bool
 }
@@ -330,6 +333,10 @@ func genCase(t *rapid.T) tcase {
 				node.Children = append(node.Children, gen.Tree(t, "pay2", 1, "urn:verif:y"))
 			}
 		}
+		if e.kind == "iq" && rapid.IntRange(0, 9).Draw(t, "textfirst") == 0 {
+			e.textFirst = true
+			node.Children = append([]*xt.Node{xt.Tx(rapid.SampledFrom([]string{"not found", "x", " . ", "&<"}).Draw(t, "leadingtext"))}, node.Children...)
+		}
 		e.node = node
 		e.prog.read = rapid.SampledFrom([]string{"none", "some", "all"}).Draw(t, "read")
 		if e.prog.read == "some" {
@@ -535,6 +542,11 @@ func model(tc tcase) (out []expect, streamErr bool) {
 			case isIQ:
 				if e.badFrom {
 					// the multiplexer cannot represent the stanza: stream error
+					return out, true
+				}
+				if e.textFirst {
+					// the content of the IQ does not begin with a payload element: not
+					// routable; the stream is ended (and a reply is never answered)
 					return out, true
 				}
 				if !e.hasPay && e.typ != "result" {
@@ -884,6 +896,37 @@ func check(t interface {
 		}
 		if gi != len(got) {
 			fail("%d elements written, only %d expected (extra: %s)\n%s", len(got), gi, got[gi].Canon(), desc())
+		}
+	}
+	// replies are never answered, whatever else happens
+	for _, e := range tc.elems {
+		if e.kind != "iq" || (e.typ != "result" && e.typ != "error") || e.id == "" {
+			continue
+		}
+		expected := false
+		for _, w := range want {
+			if w.node != nil {
+				if id, _ := w.node.Get("id"); id == e.id {
+					expected = true
+				}
+			} else if w.defID == e.id || w.anyID {
+				expected = true
+			}
+		}
+		for _, o := range tc.elems {
+			if o.id == e.id && (o.typ == "get" || o.typ == "set") {
+				expected = true // a request with the same id: its reply looks the same
+			}
+		}
+		if expected {
+			continue
+		}
+		for _, g := range got {
+			id, _ := g.Get("id")
+			typ, _ := g.Get("type")
+			if g.Name.Local == "iq" && id == e.id && (typ == "error" || typ == "result") && g.Find("error") != nil {
+				fail("the incoming IQ of type %s with id %q is a reply; it was answered with %s\n%s", e.typ, e.id, g.Canon(), desc())
+			}
 		}
 	}
 	if closes > 1 {
